@@ -515,6 +515,11 @@ func (p *Program) verifyScenario(sc *Scenario) (u *Unit) {
 		x.vc.oblige(&Obligation{Name: fc.Key + "#split.exhaustive." + sanitize(s.Src), Kind: "split", Func: fc.Key, Guard: tTrue, Goal: mkOr(cases...), Src: s.Src})
 	}
 	x.topOpts = opts
+	for _, ul := range fc.Uses {
+		if ul.At == "entry" {
+			x.useLemma(fr, &entry, ul, opts)
+		}
+	}
 	cur := st
 	for i, step := range sc.Steps {
 		call, ok := step.Call.Expr.(*ast.CallExpr)
